@@ -283,6 +283,24 @@ fn run_case<C: Suite>(c: &Case) -> Outcome {
             } else {
                 cx.o.fail(format!("{tag}/zeroize-not-offered"), ctxs.clone());
             }
+            // the wipe must not depend on the public fields: thresholds 0 / 1 / 65535, built with new(),
+            // and the same packages after a trip through bytes and JSON
+            for ms in [0u16, 1, 65535] {
+                let odd = KeyPackage::<C>::new(*kp.identifier(), *kp.signing_share(), *kp.verifying_share(), *kp.verifying_key(), ms);
+                cx.ctx = format!("{ctxs} min_signers={ms}");
+                cx.drop_check(Box::new(odd.clone()), &imgs);
+                if let Some(d) = odd.serialize().ok().and_then(|b| KeyPackage::<C>::deserialize(&b).ok()) {
+                    cx.drop_check(Box::new(d), &imgs);
+                }
+                if let Some(d) = serde_json::to_string(&odd).ok().and_then(|j| serde_json::from_str::<KeyPackage<C>>(&j).ok()) {
+                    cx.drop_check(Box::new(d), &imgs);
+                }
+                let mut z = odd.clone();
+                if try_zeroize!(&mut z) && z.signing_share().to_scalar() != zero::<C>() {
+                    cx.o.fail(format!("{tag}/zeroize-leaves-secret"), cx.ctx.clone());
+                }
+            }
+            cx.ctx = ctxs.clone();
         }
         "SigningNonces" => {
             let mut rng = ScriptedRng::ctr(format!("c20n:{}", c.seed));
@@ -349,6 +367,31 @@ fn run_case<C: Suite>(c: &Case) -> Outcome {
             } else {
                 cx.o.fail(format!("{tag}/zeroize-not-offered"), ctxs.clone());
             }
+            // unusual public counts next to the same coefficients, built with new()
+            for (mn, mx) in [(0u16, 0u16), (1, 1), (65535, 65535), (t, 0), (0, n)] {
+                let odd = d1::SecretPackage::<C>::new(id, coeffs.clone(), sp.commitment().clone(), mn, mx);
+                cx.ctx = format!("{ctxs} min_signers={mn} max_signers={mx}");
+                cx.drop_check(Box::new(odd.clone()), &imgs);
+                let mut z = odd.clone();
+                if try_zeroize!(&mut z) && z.coefficients().iter().any(|a| *a != zero::<C>()) {
+                    cx.o.fail(format!("{tag}/zeroize-leaves-secret"), cx.ctx.clone());
+                }
+            }
+            // fewer / more commitments than coefficients
+            {
+                let cm = sp.commitment().coefficients().to_vec();
+                for cut in [0usize, 1, cm.len()] {
+                    let vss = fc::keys::VerifiableSecretSharingCommitment::<C>::new(cm[..cm.len() - cut.min(cm.len())].to_vec());
+                    let odd = d1::SecretPackage::<C>::new(id, coeffs.clone(), vss, t, n);
+                    cx.ctx = format!("{ctxs} commitment shortened by {cut}");
+                    cx.drop_check(Box::new(odd.clone()), &imgs);
+                    let mut z = odd.clone();
+                    if try_zeroize!(&mut z) && z.coefficients().iter().any(|a| *a != zero::<C>()) {
+                        cx.o.fail(format!("{tag}/zeroize-leaves-secret"), cx.ctx.clone());
+                    }
+                }
+            }
+            cx.ctx = ctxs.clone();
             // NOT asserted (recorded only): part2 consumes the package by value; the package's own storage is
             // wiped, but the library copies the coefficients into temporary plain vectors
             // (SecretPackage::coefficients()) that are freed unwiped. Those temporaries are not "the storage
@@ -386,6 +429,16 @@ fn run_case<C: Suite>(c: &Case) -> Outcome {
                 cx.debug_check::<C, _>(&sp, &[s]);
                 cx.drop_check(Box::new(sp.clone()), &imgs);
                 cx.control(Box::new(ManuallyDrop::new(sp.clone())), &imgs);
+                for (mn, mx) in [(0u16, 0u16), (1, 1), (65535, 65535)] {
+                    let odd = d2::SecretPackage::<C>::new(me, sp.commitment().clone(), s, mn, mx);
+                    cx.ctx = format!("{ctxs} min_signers={mn} max_signers={mx}");
+                    cx.drop_check(Box::new(odd.clone()), &imgs);
+                    let mut z = odd.clone();
+                    if try_zeroize!(&mut z) && z.secret_share() != zero::<C>() {
+                        cx.o.fail(format!("{tag}/zeroize-leaves-secret"), cx.ctx.clone());
+                    }
+                }
+                cx.ctx = ctxs.clone();
                 let mut v = sp.clone();
                 if try_zeroize!(&mut v) {
                     cx.o.count("zeroize_checked", 1);
